@@ -302,7 +302,9 @@ func (r *testResults) report(printer internal.Printer) bool {
 	if expectedFailures > 0 {
 		printer.Printf("(Another %d failed as expected due to being known failures/flakes.)", expectedFailures)
 	}
-	return failed == 0
+	// Test cases that could not be run (or never produced an outcome) also
+	// count against success, even if nothing else failed.
+	return failed == 0 && couldNotRun == 0
 }
 
 type testOutcome struct {
